@@ -43,6 +43,7 @@ def runLine (line : String) : Driver.Result :=
     else if impl.startsWith "panic" then ⟨"P", s!"faultaccept {line} cut={cut}: {impl} violates C16: key=panic"⟩
     else ⟨"S", ""⟩
   | ["imp", prop, f, ty, src, ext, impl] => Driver.TypedCase.runImp prop f ty src ext impl
+  | ["setcol", prop, f, ty, src, ext, impl] => Driver.TypedCase.runSetCol prop f ty src ext impl
   | ["typed", _, f, ty, src, ext, w, b1, b2] => Driver.TypedCase.runTyped f ty src ext w b1 b2
   | ["twice", _, zone, ti, to, line, ext, first, second] => Driver.TypedCase.runTwice zone ti to line ext first second ""
   | ["twice", _, zone, ti, to, line, ext, first, second, hint] => Driver.TypedCase.runTwice zone ti to line ext first second hint
